@@ -87,9 +87,25 @@ def _prove_formula(hyp, goal, out):
         for x in hyp: s_.add(x)
         s_.add(z3.Not(goal))
         t1 = time.time(); r = s_.check(); out['solver_s'] += time.time() - t1
-        if r == z3.unsat: return 'unsat'
+        if r == z3.unsat: return _second_opinion(list(hyp) + [z3.Not(goal)], out)
         if r == z3.sat and cfg == 'default': return 'sat'
     return verdict
+
+
+SECOND_MS = int(os.environ.get('VERIF_SECOND_MS', '3000'))
+
+
+def _second_opinion(assertions, out):
+    """cvc5 (engine/vcg/second.py) on a VC that z3 discharged: `unsat` confirms; no answer within SECOND_MS leaves z3's answer
+    standing alone (counted as such in the evidence); `sat` against z3's `unsat` leaves the obligation undecided."""
+    from engine.vcg import second, kernels
+    if not kernels.SECOND: return 'unsat'
+    ans, dt = second.cvc5_check(assertions, SECOND_MS)
+    out['second_s'] = out.get('second_s', 0.0) + dt
+    sec = out.setdefault('second', {})
+    key = {'unsat': 'confirmed', 'sat': 'disagreed'}.get(ans, 'z3_only:' + ans.split(':')[0])
+    sec[key] = sec.get(key, 0) + 1
+    return 'unknown' if ans == 'sat' else 'unsat'
 
 
 def _verify(item):
@@ -1129,7 +1145,13 @@ def run(prop, tier, jobs, seed):
                 if status == 0: status = 2
         if len(samples) < 40:
             samples.append({'function': r['name'], 'paths': r['paths'], 'seconds': {k: r.get(k) for k in ('t_explore', 't_prove', 't_sample', 'wall_s')}, 'obligations': [f'{n} -> {v}' for n, v in r['obligations'][:8]]})
+    sec = {}
+    for r in res:
+        for k_, v_ in (r.get('second') or {}).items(): sec[k_] = sec.get(k_, 0) + v_
     cov = {'obligations': n_ob, 'discharged': n_dis, 'obligations_U': n_ob, 'functions_under_contract': functions,
+           'second_back_end': {'solver': f'cvc5 1.0.3 (/usr/bin/cvc5, {SECOND_MS} ms per VC) on the SMT-LIB text of the z3 terms of each discharged VC',
+                               'queries': sec, 'solver_time_s': round(sum(r.get('second_s', 0) for r in res), 2),
+                               'meaning': 'confirmed = unsat in z3 AND cvc5; z3_only:unknown = cvc5 gave no answer in its budget (quantified heap invariants: z3 e-matching on the stated triggers decides them, cvc5 not always); disagreed = cvc5 sat (obligation left undecided)'},
            'source_read_from_repo': sorted(read), 'unsupported_by_mode_U': unsupported, 'samples': samples,
            'solver_time_U_s': round(sum(r.get('solver_s', 0) for r in res), 2),
            'trusted_base': ['heap VCG engine (engine/vcg/heap.py): Burstall-Bornat memory model, list theory, allocation, loop summaries over port lists',
